@@ -24,7 +24,7 @@ SPEC = {
     "shards": {"quick": 16, "thorough": 16},
     "min_counts": {"quick": {"evaluations": 2000, "oracle_evals": 20000, "yields_checked": 5000,
                              "fresh_defaults_checked": 1000, "identity_checked": 5000, "operands_with_saved_position": 300, "pairs_with_different_defaults": 200,
-                             "nary_with_uformat_operands": 300, "uformat_leaders": 50, "nary_interior_cases": 300},
+                             "nary_with_uformat_operands": 150, "uformat_leaders": 30, "nary_interior_cases": 150},
                    "thorough": {"evaluations": 20000, "oracle_evals": 200000}},
     "assumptions": [
         "ordered/unique fibers only; integer or tuple coordinates",
